@@ -31,6 +31,8 @@ def run(ctx, rep):
     run_e1(ctx, rep, lambda E: sorted(set(parse_roots(E)) | set(by_names(E, LOOKUPS))), rule="E1", min_roots=60, min_sites=600)
     validated_field(ctx, rep)
     bounded_recursion(ctx, rep)
+    from ..rules_contract import transient_callers
+    transient_callers(rep, ctx.prog("Q"))
     # the one structural part of "a parsed value prints and re-parses to an equal value" that is visible in the parsers
     from ..rules_parse import sign_distrib, prefix_remainder
     sign_distrib(rep, ctx.prog("Q"))
